@@ -12,11 +12,14 @@ import (
 
 // Outcome is the end of one explored path.
 type Outcome struct {
-	St    *State
-	Ret   Value // single value, *Tuple, or nil
-	Panic bool  // path ends in an explicit panic
-	Abort bool  // path could not be followed to the end (see St.Notes)
-	Pos   token.Pos
+	St      *State
+	Ret     Value // single value, *Tuple, or nil
+	Panic   bool  // path ends in an explicit panic
+	Abort   bool  // path could not be followed to the end (see St.Notes)
+	Pos     token.Pos
+	Stopped *ssa.BasicBlock     // RunFrom: the stop block this path reached
+	From    *ssa.BasicBlock     // RunFrom: the predecessor it was reached from
+	Env     map[ssa.Value]Value // RunFrom: SSA environment at the stop
 }
 
 // Undecided reports whether the path relied on something the interpreter does not model.
@@ -54,10 +57,11 @@ type frame struct {
 	env    map[ssa.Value]Value
 	visits map[*ssa.BasicBlock]int
 	depth  int
+	stop   map[*ssa.BasicBlock]bool // RunFrom: reaching one of these ends the path
 }
 
 func (fr *frame) clone() *frame {
-	n := &frame{fn: fr.fn, depth: fr.depth, env: make(map[ssa.Value]Value, len(fr.env)), visits: make(map[*ssa.BasicBlock]int, len(fr.visits))}
+	n := &frame{fn: fr.fn, depth: fr.depth, stop: fr.stop, env: make(map[ssa.Value]Value, len(fr.env)), visits: make(map[*ssa.BasicBlock]int, len(fr.visits))}
 	for k, v := range fr.env {
 		n.env[k] = v
 	}
@@ -104,7 +108,26 @@ func (in *Interp) call(fn *ssa.Function, bindings []Value, args []Value, st *Sta
 	in.block(fr, fn.Blocks[0], nil, st, k)
 }
 
+// RunFrom explores the paths of a region of fn: it starts at block start (entered from prev, for
+// phis) with the given values for SSA names defined outside the region, and ends a path when it
+// reaches a block in stop (Outcome.Ret is nil, Outcome.Stopped the block reached) or returns.
+func (in *Interp) RunFrom(fn *ssa.Function, start, prev *ssa.BasicBlock, env map[ssa.Value]Value, stop map[*ssa.BasicBlock]bool, st *State) []Outcome {
+	var outs []Outcome
+	in.paths = 0
+	fr := &frame{fn: fn, env: map[ssa.Value]Value{}, visits: map[*ssa.BasicBlock]int{}, stop: stop}
+	for k, v := range env {
+		fr.env[k] = v
+	}
+	in.block(fr, start, prev, st, func(o Outcome) { outs = append(outs, o) })
+	return outs
+}
+
 func (in *Interp) block(fr *frame, b *ssa.BasicBlock, prev *ssa.BasicBlock, st *State, k func(Outcome)) {
+	if fr.stop[b] && fr.visits[b] >= 0 && prev != nil && len(fr.visits) > 0 {
+		in.paths++
+		k(Outcome{St: st, Stopped: b, From: prev, Env: fr.env})
+		return
+	}
 	fr.visits[b]++
 	if fr.visits[b] > in.MaxVisit {
 		st.Note("loop bound exceeded in %s block %d", fr.fn, b.Index)
@@ -335,6 +358,7 @@ func (in *Interp) operand(fr *frame, v ssa.Value, st *State) Value {
 	if val, ok := fr.env[v]; ok {
 		return val
 	}
+	st.Note("value %s of %s used but not defined on this path", v.Name(), fr.fn.Name())
 	return NewSym(v.Type(), fmt.Sprintf("undef:%s@%s", v.Name(), fr.fn.Name()))
 }
 
@@ -811,4 +835,25 @@ func (in *Interp) globalByKey(key string) *ssa.Global {
 		}
 	}
 	return nil
+}
+
+// PhiAtStop evaluates the value a phi of the stop block would take on this path.
+func (o Outcome) PhiAtStop(phi *ssa.Phi) (Value, bool) {
+	if o.Stopped == nil || phi.Block() != o.Stopped {
+		return nil, false
+	}
+	for i, p := range o.Stopped.Preds {
+		if p == o.From {
+			e := phi.Edges[i]
+			if c, ok := e.(*ssa.Const); ok {
+				if c.Value == nil {
+					return Const{V: nil, T: c.Type()}, true
+				}
+				return Const{V: Wrap(c.Value, c.Type()), T: c.Type()}, true
+			}
+			v, ok := o.Env[e]
+			return v, ok
+		}
+	}
+	return nil, false
 }
